@@ -5,7 +5,7 @@ PROPS = {
  'C07': [('CoreLocal2','ctxreg_second_refused'),('CoreLocal2','no_ctx_refused'),('CoreLocal2','no_ctx_mod_assert'),('CoreLocal2','ctxdereg_looping_refused'),('CoreLocal2','finalized_refuses_register'),('CoreLocal2','finalize_sets'),('GuardsModel','ctx_table_from_source'),('GuardsModel','no_ctx_refused_per_source'),('CoreLoop','ctx_deregister_releases'),('CorePass','pass_visits_every_module_once'),('GuardsModel','parameter_checks_as_modelled')],
  'C15': [('CoreLocal2','same_name_refused'),('CoreLocal2','deny_pub_refused'),('CoreLocal2','deny_sub_refused'),('CoreLocal2','deny_ctx_hides_context'),('CoreLocal2','reserved_topic_refused'),('CoreLocal2','persist_dereg_refused'),('GuardsModel','pub_table_from_source'),('GuardsModel','sub_table_from_source'),('GuardsModel','deny_pub_refused_per_source'),('GuardsModel','deny_sub_refused_per_source'),('CoreInvInst','lifecycle_monotone')],
  'C16': [('CoreLocal2','unstash_exact'),('CoreLocal2','stash_appends'),('CoreLocal2','stash_high_refused'),('CoreLocal','guarded_call_refused'),('CoreInvInst','stack_and_stash_empty_unless_active')],
- 'C17': [('CoreLocal','become_pushes'),('CoreLocal','unbecome_pops'),('CoreLocal','handler_is_top'),('CoreLocal','no_empty_invocation'),('CoreLocal','guarded_call_refused'),('CoreInvInst','stack_and_stash_empty_unless_active')],
+ 'C17': [('CoreLocal','become_pushes'),('CoreLocal','unbecome_pops'),('CoreLocal','handler_is_top'),('CoreLocal','no_empty_invocation'),('CoreLocal','guarded_call_refused'),('CoreLocal6','become_then_next_invocation_uses_it'),('CoreLocal6','unbecome_then_next_invocation_uses_previous'),('CoreInvInst','stack_and_stash_empty_unless_active')],
  'C18': [('CoreLocal2','consume_token_spec'),('CoreLocal2','tb_bound'),('CoreLocal2','consume_token_is_tb_step'),('CoreInvInst','tokens_never_exceed_burst'),('GuardsModel','out_of_tokens_refused'),('GuardsModel','token_guarded_calls'),('GuardsModel','token_is_consumed_last'),('GuardsModel','every_api_has_a_row'),('GuardsModel','parameter_checks_as_modelled')],
  'C13': [('CoreLocal2','flush_now_cases'),('CoreLocal2','push_evt_user_event'),('CoreLocal2','push_evt_batch_timer')],
  'C09': [('CoreLocal3','register_present_eexist'),('CoreLocal3','register_absent_adds'),('CoreLocal3','register_bad_prio_refused'),('CoreLocal3','deregister_present_removes'),('CoreLocal3','deregister_absent_noop'),('CoreLocal3','remove_src_entry_exact'),('CoreLocal3','task_dereg_eperm'),('GuardsModel','prio_table_from_source'),('CoreInvS','source_identity_is_fixed'),('CoreStop','drop_sources_clears'),('GuardsModel','parameter_checks_as_modelled')],
